@@ -174,3 +174,80 @@ Qed.
 (* the variadic spelling drops the first two bytes of a slice type's string: always "[]" *)
 Theorem C19_variadic_slice_in_range q t : exists rest, type_string q (TSlice t) = "[]" ++ rest.
 Proof. exists (type_string q t). reflexivity. Qed.
+
+(* ---- the whole run: every outcome is output, a diagnostic, or one of the two refuted
+   families (divergence of resolveImportConflict, map-order dependence of the renames);
+   the generator core has no crash site left and no other unbounded loop ---- *)
+Definition settled {A} (x : outcome A) : Prop :=
+  match x with
+  | Crash _ => False
+  | OutOfFuel site => site = "resolveImportConflict"
+  | OrderDependent site => site = "resolveImportVarConflicts"
+  | Ok _ | Err _ => True
+  end.
+
+Lemma settled_bind {A B} (x : outcome A) (f : A -> outcome B) :
+  settled x -> (forall a, x = Ok a -> settled (f a)) -> settled (bind x f).
+Proof. destruct x; cbn [bind settled]; intros S F; auto. Qed.
+
+Lemma populate_settled cfg : forall ps r imps, settled (populate cfg r ps imps).
+Proof.
+  induction ps as [|p ps IH]; intros r imps; cbn [populate]; [exact I|].
+  destruct (add_import cfg r p); [apply IH|apply IH|reflexivity].
+Qed.
+
+Lemma resolve_var_name_conflict_settled sc s : settled (resolve_var_name_conflict sc s).
+Proof. destruct (C19_numbering_total sc s) as (n & sc' & E). rewrite E. exact I. Qed.
+
+Lemma add_var_settled cfg r sc n t suffix : settled (add_var cfg r sc n t suffix).
+Proof.
+  unfold add_var. apply settled_bind; [apply populate_settled|]. intros [r1 imps] _.
+  destruct (_ && _); [reflexivity|].
+  apply settled_bind.
+  - destruct (_ || _); [apply resolve_var_name_conflict_settled|exact I].
+  - intros [n2 sc2] _. exact I.
+Qed.
+
+Lemma add_vars_settled cfg : forall vs r sc suffix, settled (add_vars cfg r sc vs suffix).
+Proof.
+  induction vs as [|[n t] vs IH]; intros r sc suffix; cbn [add_vars]; [exact I|].
+  apply settled_bind; [apply add_var_settled|]. intros [[r1 sc1] k] _. apply IH.
+Qed.
+
+Lemma method_data_settled cfg r m : settled (method_data cfg r m).
+Proof.
+  unfold method_data. apply settled_bind; [apply add_vars_settled|]. intros [r1 sc1] _.
+  apply settled_bind; [apply add_vars_settled|]. intros [r2 sc2] _. exact I.
+Qed.
+
+Lemma methods_data_settled cfg : forall ms r, settled (methods_data cfg r ms).
+Proof.
+  induction ms as [|m ms IH]; intros r; cbn [methods_data]; [exact I|].
+  apply settled_bind; [apply method_data_settled|]. intros [r1 rm] _.
+  apply settled_bind; [apply IH|]. intros [r2 rms] _. exact I.
+Qed.
+
+Lemma collect_settled i cfg : forall args r, settled (collect i cfg r args).
+Proof.
+  induction args as [|np args IH]; intros r; cbn [collect]; [exact I|].
+  destruct (parse_interface_name np) as [name mock_name].
+  destruct (assoc name (in_lookup i)) as [[| |ok is_type tps ms]|]; try exact I.
+  apply settled_bind; [apply methods_data_settled|]. intros [r1 rms] _.
+  apply settled_bind; [unfold type_params; apply add_vars_settled|]. intros [r2 tsc] _.
+  apply settled_bind; [apply IH|]. intros [r3 rks] _. exact I.
+Qed.
+
+Theorem C19_run_settled i c args : settled (mock_run i c args).
+Proof.
+  unfold mock_run. destruct args as [|a0 args]; [exact I|]. cbv zeta.
+  apply settled_bind; [apply collect_settled|]. intros [r1 rks] _.
+  apply settled_bind.
+  - destruct (existsb _ rks); [|exact I]. destruct (add_import _ r1 sync_pkg); try exact I. reflexivity.
+  - intros r2 _. apply settled_bind.
+    + destruct (String.eqb _ _); [exact I|]. destruct (c_skip_ensure c); [exact I|].
+      destruct (add_import _ r2 (in_src i)); try exact I. reflexivity.
+    + intros [r3 srcq] _. exact I.
+Qed.
+
+Corollary C19_run_never_crashes i c args site : mock_run i c args <> Crash site.
+Proof. intros E. pose proof (C19_run_settled i c args) as S. rewrite E in S. exact S. Qed.
